@@ -637,6 +637,31 @@ class ISD(model.Document):
 
         if isd_element_child is not None:
           isd_element_children.append(isd_element_child)
+        elif isinstance(element, (model.Ruby, model.Rtc)):
+          # ruby containers accept only complete sequences of children: a child that is not presented is replaced
+          # by an empty element of the same kind
+          empty_child = child_element.__class__(doc)
+          empty_child.set_lang(element.get_lang())
+          empty_child.set_space(element.get_space())
+          isd_element_children.append(
+            ISD._process_element(
+              {},
+              {},
+              isd,
+              absolute_offset,
+              selected_region,
+              selected_region,
+              isd_element,
+              begin_time,
+              end_time,
+              empty_child
+            )
+          )
+
+      if isinstance(element, (model.Ruby, model.Rtc)) and \
+        not any(isinstance(e, (model.Text, model.Br)) for c in isd_element_children for e in c.dfs_iterator()):
+        # nothing to present
+        isd_element_children = []
 
     if len(isd_element_children) > 0:
       isd_element.push_children(isd_element_children)
@@ -655,7 +680,7 @@ class ISD(model.Document):
     
     # prune or keep the element
 
-    if isinstance(isd_element, (model.Br, model.Text,model.Rb, model.Rbc)):
+    if isinstance(isd_element, (model.Br, model.Text, model.Rb, model.Rbc, model.Rt, model.Rtc, model.Rp)):
       return isd_element
 
     if isd_element.has_children():
@@ -1450,6 +1475,12 @@ def _clone_doc_with_one_region(doc: model.ContentDocument, region_id: str):
       new_child = _copy_content_element(new_doc, selected_region, associated_region, child)
       if new_child is not None:
         new_children.append(new_child)
+      elif isinstance(element, (model.Ruby, model.Rtc)):
+        # ruby containers accept only complete sequences of children: a child that is pruned is kept, empty
+        new_children.append(type(child)(new_doc))
+
+    if isinstance(element, (model.Ruby, model.Rtc)) and not any(c.has_children() for c in new_children):
+      new_children = []
 
     if len(new_children) > 0:
       new_element.push_children(new_children)
